@@ -8,6 +8,7 @@ package pubsub
 // ("ev!k=v": at choice point k of this event take v).
 
 import (
+	"crypto/sha256"
 	"fmt"
 	"sort"
 	"strconv"
@@ -20,21 +21,22 @@ import (
 
 type vfChoicePoint struct {
 	Kind string
-	N    int // number of options
-	Def  int // default option
-	Got  int // option taken
+	Key  string // stable identity: kind, a signature of the question (the canonical list) and the position in it
+	N    int    // number of options
+	Def  int    // default option
+	Got  int    // option taken
 }
 
 type vfChooser struct {
 	mu       sync.Mutex
 	log      []vfChoicePoint
-	override map[int]int
+	override map[string]int
 	coinDef  bool // default gater coin answer (true = accept)
 }
 
 var vfCh = &vfChooser{coinDef: true}
 
-func (c *vfChooser) begin(override map[int]int) {
+func (c *vfChooser) begin(override map[string]int) {
 	c.mu.Lock()
 	c.log = c.log[:0]
 	c.override = override
@@ -48,92 +50,130 @@ func (c *vfChooser) points() []vfChoicePoint {
 	return append([]vfChoicePoint{}, c.log...)
 }
 
-func (c *vfChooser) choose(kind string, n, def int) int {
+// choose answers one choice point.  Points are identified by what is asked (kind, signature of the canonical
+// input, position), not by the order in which they are met: the library meets them in map-iteration order (e.g.
+// the heartbeat walks its topics in random order), and an override must mean the same thing in every run.  Every
+// occurrence of the same question within one event gets the same answer.
+func (c *vfChooser) choose(kind, sig string, pos, n, def int) int {
 	c.mu.Lock()
 	defer c.mu.Unlock()
-	k := len(c.log)
+	key := fmt.Sprintf("%s:%s.%d", kind, sig, pos)
 	got := def
-	if v, ok := c.override[k]; ok && v >= 0 && v < n {
+	if v, ok := c.override[key]; ok && v >= 0 && v < n {
 		got = v
 	}
-	c.log = append(c.log, vfChoicePoint{kind, n, def, got})
+	c.log = append(c.log, vfChoicePoint{kind, key, n, def, got})
 	return got
 }
 
-func (c *vfChooser) shuffle(kind string, n int, swap func(i, j int)) {
+func (c *vfChooser) shuffle(kind, sig string, n int, swap func(i, j int)) {
 	// Fisher-Yates with every j owned by the explorer; default j == i (identity)
 	for i := 1; i < n; i++ {
-		j := c.choose(kind, i+1, i)
+		j := c.choose(kind, sig, i, i+1, i)
 		if j != i {
 			swap(i, j)
 		}
 	}
 }
 
+func vfSig(parts []string) string {
+	s := strings.Join(parts, ",")
+	if len(s) <= 24 && !strings.ContainsAny(s, "!=") {
+		return s
+	}
+	h := sha256.Sum256([]byte(s))
+	return fmt.Sprintf("%d#%x", len(parts), h[:4])
+}
+
 func vfInstallHooks() {
 	verifHooks.shufflePeers = func(l []peer.ID) bool {
 		sort.Slice(l, func(i, j int) bool { return vfName(l[i]) < vfName(l[j]) })
-		vfCh.shuffle("peers", len(l), func(i, j int) { l[i], l[j] = l[j], l[i] })
+		vfCh.shuffle("peers", vfSig(vfNames(l)), len(l), func(i, j int) { l[i], l[j] = l[j], l[i] })
 		return true
 	}
 	verifHooks.shufflePeerInfo = func(l []*pb.PeerInfo) bool {
 		sort.Slice(l, func(i, j int) bool { return string(l[i].GetPeerID()) < string(l[j].GetPeerID()) })
-		vfCh.shuffle("peerinfo", len(l), func(i, j int) { l[i], l[j] = l[j], l[i] })
+		var names []string
+		for _, pi := range l {
+			names = append(names, vfName(peer.ID(pi.GetPeerID())))
+		}
+		vfCh.shuffle("peerinfo", vfSig(names), len(l), func(i, j int) { l[i], l[j] = l[j], l[i] })
 		return true
 	}
 	verifHooks.shuffleStrings = func(l []string) bool {
 		sort.Strings(l)
-		vfCh.shuffle("strings", len(l), func(i, j int) { l[i], l[j] = l[j], l[i] })
+		vfCh.shuffle("strings", vfSig(l), len(l), func(i, j int) { l[i], l[j] = l[j], l[i] })
 		return true
 	}
-	verifHooks.pick = func(idx, n int) int { return vfCh.choose("pick", n, 0) }
+	verifHooks.pick = func(idx, n int) int { return vfCh.choose("pick", "", 0, n, 0) }
 	verifHooks.pickPeer = func(ids []peer.ID) int {
 		// map iteration order would decide; canonical order, the explorer picks
 		sort.Slice(ids, func(i, j int) bool { return vfName(ids[i]) < vfName(ids[j]) })
-		return vfCh.choose("event", len(ids), 0)
+		return vfCh.choose("event", vfSig(vfNames(ids)), 0, len(ids), 0)
 	}
 	verifHooks.coin = func(th float64) (bool, bool) {
 		def := 0
 		if !vfCh.coinDef {
 			def = 1
 		}
-		return vfCh.choose("coin", 2, def) == 0, true
+		return vfCh.choose("coin", "", 0, 2, def) == 0, true
 	}
 }
 
 func init() { vfInstallHooks() }
 
-// vfSplitChoice splits "ev!3=1!5=0" into the base event and its overrides.
-func vfSplitChoice(ev string) (string, map[int]int) {
+// vfSplitChoice splits "ev!peers:a,b,c.2=1!coin:.0=1" into the base event and its overrides.
+func vfSplitChoice(ev string) (string, map[string]int) {
 	parts := strings.Split(ev, "!")
 	if len(parts) == 1 {
 		return ev, nil
 	}
-	ov := map[int]int{}
+	ov := map[string]int{}
 	for _, p := range parts[1:] {
-		k, v, ok := strings.Cut(p, "=")
-		if !ok {
+		i := strings.LastIndex(p, "=")
+		if i < 0 {
 			continue
 		}
-		ki, _ := strconv.Atoi(k)
-		vi, _ := strconv.Atoi(v)
-		ov[ki] = vi
+		vi, _ := strconv.Atoi(p[i+1:])
+		ov[p[:i]] = vi
 	}
 	return parts[0], ov
 }
 
-// vfDeviations lists the single-deviation variants of ev given the choice
-// points its default run met (only points whose alternative changes the result
-// are worth it, but that is not known here: all are listed, capped).
-func vfDeviations(ev string, pts []vfChoicePoint, maxPoints int) []string {
+// vfDeviations lists the single-deviation variants of ev: one per distinct question of an allowed kind that the
+// default run met and per non-default answer, questions in sorted order (the order they were met in is not
+// deterministic), at most maxPoints questions.
+func vfDeviations(ev string, pts []vfChoicePoint, kinds []string, maxPoints int) []string {
+	if strings.Contains(ev, "!") {
+		return nil
+	}
+	byKey := map[string]vfChoicePoint{}
+	var keys []string
+	for _, p := range pts {
+		ok := len(kinds) == 0
+		for _, k := range kinds {
+			if k == p.Kind {
+				ok = true
+			}
+		}
+		if !ok || p.N < 2 {
+			continue
+		}
+		if _, dup := byKey[p.Key]; !dup {
+			byKey[p.Key] = p
+			keys = append(keys, p.Key)
+		}
+	}
+	sort.Strings(keys)
 	var out []string
-	for k, p := range pts {
-		if k >= maxPoints {
+	for i, k := range keys {
+		if maxPoints > 0 && i >= maxPoints {
 			break
 		}
+		p := byKey[k]
 		for v := 0; v < p.N; v++ {
 			if v != p.Def {
-				out = append(out, fmt.Sprintf("%s!%d=%d", ev, k, v))
+				out = append(out, fmt.Sprintf("%s!%s=%d", ev, k, v))
 			}
 		}
 	}
